@@ -26,6 +26,10 @@ type Case struct {
 	Inst   [3]bool      `json:"inst"`   // filter function installed for nodes, ways, relations
 	Accept []int        `json:"accept"` // accepted positions (1-based, file order over all elements)
 	Procs  []int        `json:"procs"`
+	// large-block cases (PbfFormatBig.tla): the predicate is "position % m = r" (AccMod = [m, r]) instead of a list of
+	// positions, elements are recorded run-length encoded, `mutated` is one flag (any), `shown` is not recorded
+	RLE    bool  `json:"rle"`
+	AccMod []int `json:"accmod"`
 }
 
 type Run struct {
@@ -111,11 +115,19 @@ func main() {
 	one := func(i int, line []byte) interface{} {
 		var c Case
 		vio.Must(json.Unmarshal(line, &c), "case")
+		vio.Must(c.File.Expand(), "expand run-length groups")
 		keys := elementKeys(&c.File)
 		accept := map[key]bool{}
 		for _, pos := range c.Accept {
 			if pos >= 1 && pos <= len(keys) {
 				accept[keys[pos-1]] = true
+			}
+		}
+		if len(c.AccMod) == 2 && c.AccMod[0] > 0 {
+			for pos := 1; pos <= len(keys); pos++ {
+				if pos%c.AccMod[0] == c.AccMod[1] {
+					accept[keys[pos-1]] = true
+				}
 			}
 		}
 		rec := Rec{Case: line, Runs: []Run{}}
@@ -126,6 +138,9 @@ func main() {
 				var mu sync.Mutex
 				shown := []interface{}{}
 				see := func(o osm.Object) { // called from decoder goroutines
+					if c.RLE {
+						return
+					}
 					r := p.RecObject(o)
 					mu.Lock()
 					shown = append(shown, r)
@@ -158,6 +173,18 @@ func main() {
 					run.Err = pbfrec.ErrStr(r.Err)
 					for k, o := range r.Objects {
 						run.Mutated = append(run.Mutated, !reflect.DeepEqual(o, snaps[k]))
+					}
+					if c.RLE {
+						anyMut := false
+						for _, m := range run.Mutated {
+							anyMut = anyMut || m
+						}
+						run.Mutated = []bool{anyMut}
+						runs := pbfrec.Compress(run.Elems)
+						run.Elems = make([]interface{}, len(runs))
+						for k := range runs {
+							run.Elems[k] = runs[k]
+						}
 					}
 				}
 				mu.Lock()
